@@ -794,7 +794,7 @@ def cases(ctx):
                     g = {"n": n, "edges": es}
                 rng.shuffle(es)
                 infos.append(("rtrip", dict(ty=ty, fmt=fmt, g=g, name="large", shape="large", via=rng.choice(["stringio", "file", "from_file"]))))
-                if n == 170:
+                if n == 170 and ty != "bipartite":
                     infos.append(("write", dict(ty=ty, fmt=fmt, g=g, name="large", shape="large", via="file")))
     # ---- malformed texts of the in-house formats
     reps = 1400 if quick else 20000
